@@ -18,7 +18,7 @@ EXCLUDED = {
     'ElementTriSkeletonP1': 'piecewise: lbasis multiplies by RefTri.on_facet (comparisons on coordinates)',
     'ElementTetSkeletonP0': 'piecewise: lbasis multiplies by RefTet.on_facet (comparisons on coordinates)',
     'ElementHexSkeleton0': 'piecewise: lbasis multiplies by RefHex.on_facet (comparisons on coordinates)',
-    'ElementTriBDM1': 'coefficients in Q(sqrt 3) (Gauss points s_1, s_2), not rational',
+    'ElementTriBDM1': 'coefficients in Q(sqrt 3): not in the rational tie; handled by the Q(sqrt 3) path (s = sqrt 3 as indeterminate reduced with s^2 = 3)',
     'ElementLinePp': 'parametrised; not in the exact tie (numpy Legendre objects, sqrt scales): handled for p<=5 by the Legendre-family path (formal scales, snapped coefficients)',
     'ElementQuadP': 'parametrised; not in the exact tie (numpy Legendre objects, sqrt scales): handled for p<=5 by the Legendre-family path (formal scales, snapped coefficients)',
 }
@@ -133,6 +133,9 @@ class TranslatedPP:
         except Exception as ex:  # noqa
             raise TranslateError(f'{self.label}: lbasis raised {type(ex).__name__}: {ex}')
         self.family = 'h1'
+        self.src_group = 'C09_P_' + cls.__name__
+        self.c03_group = 'C03_T_Legendre'
+        self.factory = (lambda c=cls, q=p: c(q))
         self.scales = scales          # {argument of sqrt: variable index}
         d = self.dim
         self.basis = []
@@ -148,6 +151,32 @@ class TranslatedPP:
 
     def values(self):
         return [b[0] for b in self.basis]
+
+
+class TranslatedBDM1:
+    """ElementTriBDM1: exact polynomials in x, y and the indeterminate s = sqrt(3) (arithmetic in Q(s)/(s^2-3) while the
+    real lbasis runs, vlib/c09_pp.run_bdm1); every emitted coefficient is reduced to degree <= 1 in s"""
+
+    def __init__(self):
+        from . import c09_pp
+        self.label = self.name = 'ElementTriBDM1'
+        try:
+            self.dim, self.nv, basis, self.scales, self.elem = c09_pp.run_bdm1()
+        except (SymbolicError, NonRational) as ex:
+            raise TranslateError(f'ElementTriBDM1: symbolic execution in Q(sqrt 3) failed: {ex}')
+        except Exception as ex:  # noqa
+            raise TranslateError(f'ElementTriBDM1: lbasis raised {type(ex).__name__}: {ex}')
+        self.family = 'hdiv'
+        self.src_group = 'C09_P_ElementTriBDM1'
+        self.c03_group = 'C03_T_Sqrt3'
+        self.factory = type(self.elem)
+        self.basis = []
+        for i, tup in enumerate(basis):
+            shp = tuple(shape_of(f) for f in tup)
+            if shp != ((2,), ()):
+                raise TranslateError(f'ElementTriBDM1: lbasis({i}) returned shapes {shp}')
+            self.basis.append(tup)
+        self.doflocs = [None] * len(self.basis)      # Gauss points s_1, s_2: irrational, no rational location
 
 
 def legendre_family():
@@ -385,6 +414,15 @@ def generate(log=None):
         info['legendre'].append({'name': n, 'label': tr.label, 'dim': tr.dim, 'variables': tr.nv, 'nbfun': len(tr.basis),
                                  'scales(sqrt argument -> variable index)': {str(k): v for k, v in tr.scales.items()},
                                  'max_degree': max(b[0].degree() for b in tr.basis)})
+    # ElementTriBDM1 in Q(sqrt 3)
+    names_s3 = []
+    trb = TranslatedBDM1()
+    translated[trb.name] = trb
+    groups.setdefault(trb.src_group, []).append((trb.name, f'Definition {trb.name}_e : elem :=\n  {celem(trb)}.\n\n'
+                      f'Lemma {trb.name}_deriv : deriv_ok {trb.name}_e = true.\nProof. vm_compute. reflexivity. Qed.\n'))
+    names_s3.append(trb.name)
+    info['sqrt3'] = [{'name': trb.name, 'variables': 'x, y, s = sqrt(3) (index 2), coefficients reduced with s^2 = 3 during symbolic execution',
+                      'nbfun': len(trb.basis)}]
     # the summary file: lists + Forall lemmas assembled from the per-element lemmas
     for g, parts in groups.items():
         chunks[g] = HEADER + '\n' + '\n'.join(t for _, t in parts)
@@ -411,11 +449,13 @@ def generate(log=None):
             forall_lemma('legendre_deriv_ok', 'deriv_ok e = true', 'legendre_elements', names_leg, 'deriv'),
             forall_lemma('legendre_dual_ok', 'duality_param_ok e = true', 'legendre_elements', names_leg, 'dualp'),
             forall_lemma('legendre_pou_ok', 'pou_ok e = true', 'legendre_elements', names_leg, 'pou'),
+            'Definition sqrt3_elements : list elem :=\n  [' + '; '.join(f'{n}_e' for n in names_s3) + '].\n',
+            forall_lemma('sqrt3_deriv_ok', 'deriv_ok e = true', 'sqrt3_elements', names_s3, 'deriv'),
             'Definition global_functionals : list gelem :=\n  [' + '; '.join(f'{n}_g' for n in names_glob) + '].\n',
             forall_lemma('global_gdof_ok', 'gdof_ok e = true', 'global_functionals', names_glob, 'gdof'),
             forall_lemma('global_tables_ok', 'dtable_ok (snd e) = true', 'global_tables', names_glob, 'table_ok'),
             ]
-    info['names'] = {'all': names_all, 'h1': names_dual, 'lowest': names_flux, 'global': names_glob, 'legendre': names_leg}
+    info['names'] = {'all': names_all, 'h1': names_dual, 'lowest': names_flux, 'global': names_glob, 'legendre': names_leg, 'sqrt3': names_s3}
     return chunks, '\n'.join(summ), info, translated
 
 
